@@ -1,7 +1,7 @@
 (* C11 - File operations.  Only statements, each closed by [exact] of a lemma
    proved in Proofs/Fs*.v, with Print Assumptions beneath. *)
 From UV Require Import Lib.Base Model.Fs Proofs.FsProofs Proofs.FsRoutesProofs Proofs.FsLedgerProofs
-  Proofs.FsPoolProofs Proofs.FsRingProofs.
+  Proofs.FsPoolProofs Proofs.FsRingProofs Proofs.FsPathProofs.
 
 (* ================= (b) buffer arithmetic ================= *)
 
@@ -300,3 +300,16 @@ Theorem C11_result_is_call_errno :
   (rc out r = (-1)%Z -> result_z out r = (- perrno out r)%Z).
 Proof. exact result_is_call_errno. Qed.
 Print Assumptions C11_result_is_call_errno.
+
+(* ================= (f) path-sized strings ================= *)
+
+(* uv_fs_readlink: for every target length below PATH_MAX (4096) and every answer
+   of pathconf (failure, or a limit >= PATH_MAX) the buffer is larger than the
+   target, so readlink(2) does not truncate and req->ptr is the whole target. *)
+Theorem C11_readlink_whole_target :
+  forall (A : Type) (pc : Z) (target : list A),
+  (pc = -1 \/ PATH_MAX <= pc)%Z ->
+  (Z.of_nat (length target) < PATH_MAX)%Z ->
+  (Z.of_nat (length target) < pathmax_size pc)%Z /\ fs_readlink_ptr pc target = target.
+Proof. exact readlink_whole_target. Qed.
+Print Assumptions C11_readlink_whole_target.
